@@ -114,6 +114,17 @@ PROPS.update({
     },
 })
 
+PROPS["C12"] = {
+    "level_text": "Trace_Sym: (a) the six observable attributes of all 48 sizes (dimensions, data and total codewords, is_square, is_dmre) are compared with the catalogue of Symbols.tla transcribed from ISO/IEC 16022 Table 7 / ISO 21471 (its ASSUMEs check module-count identity and uniqueness of dimensions); blocks and EC per block are pinned by the C06 run, region layout by C08. (b) SymbolList builder traces: every call is an action of the SymbolList machine; set, iteration order, is_empty, contains are compared after each call. (c) every Probe (ASCII-only encoding of n characters) must pick FirstBigEnough of the list's own order.",
+    "level_note": "Trusts: Symbols.tla transcription. Width/height filters are enumerated for all bound kinds (unbounded/included/excluded) at every distinct dimension +-1 (thorough: 0..151).",
+    "jobs": [{"family": "sym", "spec": "Trace_Sym", "coverage": True},
+             # number of blocks / EC codewords per block: the encoder's output must be a codeword under the catalogue's interleaving
+             {"family": "rs", "spec": "Trace_RS", "focus": "C12",
+              "clause_map": {"C06.notCodeword": "C12.blockStructure", "C06.eccLen": "C12.eccCount", "C06.encodePanic": "C12.eccCount"}}],
+    "rule": "one case = a sequence of builder calls (Default/Extended/Whitelist/From/EnforceSquare/EnforceRect/EnforceWidth/EnforceHeight/Extend) with Contains and Probe observations; systematic single filters on all base lists, random compositions of up to 4 filters, random whitelists with duplicates; non-trivial = every case; distinct = distinct call sequences",
+    "assumptions": ["num_ecc_blocks / num_ecc_per_block are not observable on their own through the public API: pinned by C06 (syndromes under the spec's interleaving)"],
+}
+
 MC = {
     "MC_Placement": {"spec": "MC_Placement", "must_take": ["Statement"], "timeout": 900},
 }
@@ -199,6 +210,10 @@ def account(pid, fam, case, verdict, ev):
             else:
                 ev["nontrivial"].add((case["id"], i))
         ev["x_events_validated"] = ev.get("x_events_validated", 0) + len(case["events"])
+    elif fam == "sym":
+        ev["nontrivial"].add(hash(json.dumps([{k: v for k, v in e.items() if k in ("ev", "names", "lo", "hi", "n", "name", "size")} for e in case["events"]])))
+        for e in case["events"]:
+            ev["notes"]["event_" + e["ev"]] += 1
     elif fam == "place":
         ev["nontrivial"].add(case["id"])
         ev["x_events_validated"] = ev.get("x_events_validated", 0) + len(case["events"])
